@@ -10,7 +10,9 @@ package ledger
 // returned, catchpoint file recorded). The child is killed either by a verifhook `exit` action armed
 // from its environment (syscall.Exit in the middle of the block-queue flush, the tracker commit
 // transaction, the catchpoint stages) or by a SIGKILL the parent sends at a PRNG-chosen journal
-// position. The parent then opens the ledger from the files as they were left and judges it.
+// position. A second fault class makes the committing code itself crash: the callback of the
+// block-flush / tracker-commit transaction panics once in-process (c09ArmPanic), the child carries
+// on and is killed shortly afterwards. The parent then opens the ledger from the files as they were left and judges it.
 //
 // Oracle (not stricter than the property):
 //   * OpenLedger must succeed (no error, no panic);
@@ -50,6 +52,7 @@ import (
 	"strconv"
 	"strings"
 	"sync"
+	"sync/atomic"
 	"syscall"
 	"testing"
 	"time"
@@ -73,7 +76,10 @@ const (
 	c09EnvDir      = "VERIF_C09_DIR"       // case directory: journal + ledger files
 	c09EnvBlocks   = "VERIF_C09_BLOCKS"    // number of blocks the child adds
 	c09EnvReportAt = "VERIF_C09_REPORT_AT" // journal line count at which the child prints c09Reached
+	c09EnvPanic    = "VERIF_C09_PANIC"      // <point>@<n>: in-process fault: the callback of the DB transaction panics ONCE at (about) the nth hit
+	c09EnvThen     = "VERIF_C09_PANIC_THEN" // exit (die before the next tracker transaction) | kill:<K> (report K journal lines later, parent SIGKILLs)
 	c09Reached     = "C09-REACHED"
+	c09Fired       = "C09-PANIC-FIRED"
 	c09Note        = "C09-NOTE generated block rejected by the generating ledger (class owned by C20):"
 	c09CpInterval  = 4
 )
@@ -115,8 +121,13 @@ type c09Line struct {
 
 type c09Journal struct {
 	f        *os.File
-	n        int
-	reportAt int
+	n        atomic.Int64
+	reportAt atomic.Int64 // 0 = never; may be set by the fault handler on a ledger goroutine
+	reported sync.Once
+}
+
+func (j *c09Journal) report() {
+	j.reported.Do(func() { os.Stdout.WriteString("\n" + c09Reached + "\n") })
 }
 
 func (j *c09Journal) write(c *kit.Ctx, ln c09Line) {
@@ -131,9 +142,8 @@ func (j *c09Journal) write(c *kit.Ctx, ln c09Line) {
 	if err := j.f.Sync(); err != nil {
 		c.Harness("journal sync: %v", err)
 	}
-	j.n++
-	if j.n == j.reportAt {
-		os.Stdout.WriteString("\n" + c09Reached + "\n")
+	if n, at := j.n.Add(1), j.reportAt.Load(); at > 0 && n >= at {
+		j.report()
 	}
 }
 
@@ -257,13 +267,18 @@ func c09Step(s *hlSim, beforeAdd func(blk bookkeeping.Block)) error {
 	if err != nil {
 		return &c09StepError{stage: "generate", err: fmt.Errorf("GenerateBlock: %w", err)}
 	}
-	blk := ub.UnfinishedBlock()
 	var seed committee.Seed
 	s.r.Fill(seed[:])
+	var blk bookkeeping.Block
 	if proto.Payouts.Enabled {
-		blk = blk.WithProposer(seed, prp, eligible)
+		if prp != s.u.sink {
+			// as agreement does: a proposer that closed its account inside this block gets no payout
+			blk = ub.FinishBlock(seed, prp, eligible)
+		} else {
+			blk = ub.UnfinishedBlock().WithProposer(seed, prp, eligible)
+		}
 	} else {
-		blk = blk.WithProposer(seed, basics.Address{}, false)
+		blk = ub.UnfinishedBlock().WithProposer(seed, basics.Address{}, false)
 	}
 	vb, err := s.validateNoSig(blk)
 	if err != nil {
@@ -320,6 +335,66 @@ func c09RecordedCatchpoints(l *Ledger, upTo basics.Round) []uint64 {
 	return out
 }
 
+// c09ArmPanic installs the in-process fault: the callback of the block-flush transaction or of the
+// tracker-commit transaction PANICS once (the committing code itself crashes in the middle of the
+// transaction, the process lives on). Correct code turns that into a failed, rolled-back
+// transaction (blockQueue.syncer retries the batch; trackerRegistry.commitRound reports the error,
+// the trackers handleCommitError, a later commit covers the rounds). The child carries on
+// journaling and is killed a little later, before the state could be overwritten.
+func c09ArmPanic(c *kit.Ctx, s *hlSim, j *c09Journal, spec, then string) {
+	i := strings.LastIndexByte(spec, '@')
+	if i < 0 {
+		c.Harness("bad %s=%q", c09EnvPanic, spec)
+	}
+	point := spec[:i]
+	nth, _ := strconv.ParseUint(spec[i+1:], 10, 64)
+	var fired atomic.Bool
+	fire := func() {
+		if !fired.CompareAndSwap(false, true) {
+			return
+		}
+		os.Stdout.WriteString("\n" + c09Fired + " " + point + "\n")
+		if then == "exit" {
+			// die right before the next tracker commit transaction: nothing can repair the files in between
+			const p = "ledger.tr.commitRound.afterPrepare"
+			verifhook.Set(p, verifhook.ExitAt(verifhook.Hits(p)+1))
+		} else {
+			k, _ := strconv.Atoi(strings.TrimPrefix(then, "kill:"))
+			j.reportAt.Store(j.n.Load() + int64(max(k, 1)))
+		}
+		// if the faulted ledger stalls the history (a wait that never returns), still get killed: timing of the kill only
+		time.AfterFunc(20*time.Second, j.report)
+		panic(fmt.Errorf("C09 injected fault: the transaction callback panics at %s", point))
+	}
+	if point != "ledger.bq.syncer.afterBlockPut" {
+		verifhook.Set(point, func(_ string, hit uint64) {
+			if hit >= nth {
+				fire()
+			}
+		})
+		return
+	}
+	// block flush: a fault after the LAST BlockPut of a batch tears nothing; wait for a batch of
+	// several blocks (the flush is slowed a little so that batches form) and fault inside it
+	var batchLen, pos atomic.Int64
+	verifhook.Set("ledger.bq.syncer.beforeTx", func(string, uint64) {
+		if fired.Load() {
+			return
+		}
+		time.Sleep(40 * time.Millisecond)
+		bq := s.l.blockQ
+		bq.mu.Lock()
+		batchLen.Store(int64(len(bq.q))) // >= the batch the syncer took
+		bq.mu.Unlock()
+		pos.Store(0)
+	})
+	verifhook.Set(point, func(_ string, hit uint64) {
+		if p := pos.Add(1); hit >= nth && p < batchLen.Load() {
+			fire()
+		}
+	})
+}
+
 func TestVerifC09Child(t *testing.T) {
 	if os.Getenv(c09EnvChild) == "" {
 		t.Skip("runs only as a child process of TestVerifC09")
@@ -333,7 +408,8 @@ func TestVerifC09Child(t *testing.T) {
 	if err != nil {
 		c.Harness("journal: %v", err)
 	}
-	j := &c09Journal{f: f, reportAt: reportAt}
+	j := &c09Journal{f: f}
+	j.reportAt.Store(int64(reportAt))
 	t0 := time.Now()
 	timing := func(what string) { // diagnostics only
 		if os.Getenv("VERIF_C09_TIMING") != "" {
@@ -345,6 +421,9 @@ func TestVerifC09Child(t *testing.T) {
 	timing("sim created")
 	// the genesis block carries the creation time: the parent must rebuild its reference on THIS block
 	j.write(c, c09Line{K: "open", DB: s.dbName, B: protocol.Encode(&s.genesis.Block)})
+	if spec := os.Getenv(c09EnvPanic); spec != "" {
+		c09ArmPanic(c, s, j, spec, os.Getenv(c09EnvThen))
+	}
 	durable := func(r basics.Round, via string) { j.write(c, c09Line{K: "durable", R: uint64(r), Via: via}) }
 	cpSeen := map[uint64]bool{}
 	fsSeen := map[basics.Round]bool{}
@@ -446,9 +525,15 @@ type c09Case struct {
 	killAt    int // journal line count at which the child reports for the SIGKILL
 	killDelay time.Duration
 	blocks    int
+	then      string // panic cases: "exit" or "kill:<K>"
 }
 
+func (cs c09Case) isPanic() bool { return strings.HasPrefix(cs.point, "panic:") }
+
 func (cs c09Case) String() string {
+	if cs.isPanic() {
+		return fmt.Sprintf("case %d: history %d %s=%s@%d %s=%s (+SIGKILL %v after the report)", cs.idx, cs.hist, c09EnvPanic, cs.point[6:], cs.hit, c09EnvThen, cs.then, cs.killDelay)
+	}
 	switch cs.point {
 	case "sigkill":
 		return fmt.Sprintf("case %d: history %d SIGKILL %v after journal line %d", cs.idx, cs.hist, cs.killDelay, cs.killAt)
@@ -484,7 +569,9 @@ func c09RunChild(cs c09Case, base string) c09Run {
 	}
 	env = append(env, "GOGC=400", c09EnvChild+"=1", c09EnvHist+"="+strconv.Itoa(cs.hist), c09EnvDir+"="+dir,
 		c09EnvBlocks+"="+strconv.Itoa(cs.blocks), "VERIF_SCRATCH="+dir, "VERIF_OUT="+dir)
-	if cs.point == "sigkill" {
+	if cs.isPanic() {
+		env = append(env, fmt.Sprintf("%s=%s@%d", c09EnvPanic, cs.point[6:], cs.hit), c09EnvThen+"="+cs.then)
+	} else if cs.point == "sigkill" {
 		env = append(env, c09EnvReportAt+"="+strconv.Itoa(cs.killAt))
 	} else if cs.point != "exit" {
 		env = append(env, fmt.Sprintf("VERIF_HOOKS=%s=exit@%d", cs.point, cs.hit))
@@ -518,7 +605,7 @@ func c09RunChild(cs c09Case, base string) c09Run {
 	sc.Buffer(make([]byte, 1<<16), 1<<22)
 	for sc.Scan() {
 		ln := sc.Text()
-		if ln == c09Reached && cs.point == "sigkill" {
+		if ln == c09Reached && (cs.point == "sigkill" || cs.isPanic()) {
 			time.Sleep(cs.killDelay) // schedule noise only: where exactly the kill lands is arbitrary by design
 			mu.Lock()
 			killed = true
@@ -1144,10 +1231,14 @@ func c09Judge1(t testing.TB, c *kit.Ctx, cs c09Case, run c09Run) (hits map[strin
 	if run.how != "completed" {
 		c.Count("crashes_taken", 1)
 	}
-	if run.how == "hook" && c09InTrackerTx(cs.point) {
+	if cs.isPanic() && run.how != "completed" && strings.Contains(run.output, c09Fired) {
+		c.Count("panic_faults_taken", 1)
+		c.Count("panic_fault."+cs.point[6:], 1)
+	}
+	if run.how == "hook" && !cs.isPanic() && c09InTrackerTx(cs.point) {
 		c.Count("crashes_inside_tracker_transaction", 1)
 	}
-	if run.how == "hook" && cs.point == "ledger.bq.syncer.afterBlockPut" {
+	if run.how == "hook" && !cs.isPanic() && cs.point == "ledger.bq.syncer.afterBlockPut" {
 		c.Count("crashes_inside_block_transaction", 1)
 	}
 	if gap > 0 {
@@ -1326,7 +1417,7 @@ func c09ReadCatchpoint(rc io.Reader) error {
 func TestVerifC09(t *testing.T) {
 	c := kit.Start(t, "C09", "crash")
 	defer c.Finish()
-	c.Rule("child processes run PRNG HL histories on an on-disk ledger (archival and non-archival, catchpoints every 4 rounds, reduced-lookback protocols, PRNG schedule of WaitForCommit/Wait/forced commits/reload/reopen) and journal every block before handing it over and every durability acknowledgement after receiving it; each child is killed by a verifhook exit at (hook point, hit index) — block-queue flush before/inside/after the block transaction, tracker commit before/inside/after the transaction, catchpoint first/second stage — or by SIGKILL at a PRNG journal position, or exits without Close; hit indices are drawn from the hit counts of an unarmed run of the same history; the parent reopens the files and compares with a replay of exactly the recovered prefix; distinct = distinct (kill point, blockDB−trackerDB round gap on disk) pairs")
+	c.Rule("child processes run PRNG HL histories on an on-disk ledger (archival and non-archival, catchpoints every 4 rounds, reduced-lookback protocols, PRNG schedule of WaitForCommit/Wait/forced commits/reload/reopen) and journal every block before handing it over and every durability acknowledgement after receiving it; each child is killed by a verifhook exit at (hook point, hit index) — block-queue flush before/inside/after the block transaction, tracker commit before/inside/after the transaction, catchpoint first/second stage — or by SIGKILL at a PRNG journal position, or exits without Close; hit indices are drawn from the hit counts of an unarmed run of the same history; second fault class: the callback of the block-flush transaction (inside a multi-block batch) or of the tracker-commit transaction (at begin / after a tracker / before the round update) PANICS once in-process (the transaction must roll back and be retried), the child carries on journaling and is killed right before the next tracker transaction or by SIGKILL a few journal lines later; the parent reopens the files and compares with a replay of exactly the recovered prefix; distinct = distinct (kill point, blockDB−trackerDB round gap on disk) pairs")
 	c.Assume("process kill only: the OS keeps every completed write (no power loss, no torn page below SQLite)")
 	c.Assume("the reference is the real evaluator run on a fresh in-memory ledger over the journaled blocks plus the HL per-round model (evaluation itself is checked by C18-C24)")
 	hlRegisterProtos()
@@ -1437,6 +1528,31 @@ func TestVerifC09(t *testing.T) {
 		cases = append(cases, c09Case{idx: idx, hist: h, point: "sigkill", killAt: 2 + r.Intn(n-1), killDelay: time.Duration(r.Intn(4000)) * time.Microsecond, blocks: blocks})
 		idx++
 	}
+	// fault class 2: the transaction callback itself panics once (process survives), kill shortly after
+	panicPoints := []string{"ledger.bq.syncer.afterBlockPut", "ledger.tr.commitRound.inTx.begin", "ledger.tr.commitRound.inTx.afterTracker", "ledger.tr.commitRound.inTx.beforeUpdateRound"}
+	for h := 0; h < min(nHist, c.N(1, 4)); h++ {
+		for pi, p := range panicPoints {
+			n := pr[h].hits[p]
+			if n == 0 {
+				c.Count("point_not_reached_in_history", 1)
+				continue
+			}
+			r := c.Rand(9, uint64(h), 300, uint64(pi))
+			for k := 0; k < c.N(2, 4); k++ {
+				cs := c09Case{idx: idx, hist: h, point: "panic:" + p, hit: 1 + r.Uint64n(max(n*2/3, 1)), blocks: blocks, killDelay: time.Duration(r.Intn(3000)) * time.Microsecond}
+				switch {
+				case pi == 0:
+					cs.then = fmt.Sprintf("kill:%d", 2+r.Intn(8)) // let acknowledgements arrive
+				case k%2 == 0:
+					cs.then = "exit"
+				default:
+					cs.then = fmt.Sprintf("kill:%d", 1+r.Intn(4))
+				}
+				cases = append(cases, cs)
+				idx++
+			}
+		}
+	}
 	c.Count("children_started", len(probes)+len(cases))
 	check(runAll(cases))
 
@@ -1448,6 +1564,15 @@ func TestVerifC09(t *testing.T) {
 	}
 	c.Count("distinct_points_with_crash", points)
 	c.Require("distinct_points_with_crash", 12)
+	pp := 0
+	for _, p := range panicPoints {
+		if c.Counter("panic_fault."+p) > 0 {
+			pp++
+		}
+	}
+	c.Count("distinct_panic_points_with_crash", pp)
+	c.Require("distinct_panic_points_with_crash", 3)
+	c.Require("panic_faults_taken", int64(c.N(5, 40)))
 	c.Require("crashes_taken", int64(c.N(40, 700)))
 	c.Require("crashes_blockdb_ahead_of_trackerdb", int64(c.N(20, 300)))
 	c.Require("crashes_inside_tracker_transaction", int64(c.N(4, 60)))
